@@ -1123,3 +1123,521 @@ Theorem finish_frame : forall rk n s f d s',
 Proof.
   intros. apply srel_frame. eapply finish_srel; eauto using reach_closed, reach_owns, reach_self.
 Qed.
+
+(* ------------------------------------------------------------------------------------ *)
+(* Stop accounting *)
+
+Lemma arel_count_le : forall (A : uid -> Prop) a c c', arel A a c c' -> (a_count c' <= a_count c)%Z.
+Proof. intros A a c c' [->|(_ & _ & Hlt & _)]; lia. Qed.
+
+Lemma srel_acts_fwd : forall (R A : uid -> Prop) s s' a c, Srel R A s s' -> geta s a = Some c ->
+  exists c', geta s' a = Some c' /\ arel A a c c'.
+Proof.
+  intros R A s s' a c [_ Ac _] H. specialize (Ac a). rewrite H in Ac.
+  destruct (geta s' a) as [c'|]; try tauto. eauto.
+Qed.
+
+(* what the Stop events emitted by an operation say about the actions *)
+Definition stops_spec (A : uid -> Prop) (s s' : st) : Prop :=
+  exists delta, out s' = out s ++ delta /\
+    forall a,
+      (nstops a delta <= 1)%nat /\
+      (nstops a delta = 1%nat <->
+         (exists c, geta s a = Some c /\ active (a_status c) = true) /\
+         geta s' a = Some (mkAct AStopping 0%Z)) /\
+      (nstops a delta = 1%nat -> A a) /\
+      (nstops a delta = 0%nat -> ast s' a = ast s a).
+
+Lemma srel_stops : forall (R A : uid -> Prop) s s', Srel R A s s' -> stops_spec A s s'.
+Proof.
+  intros R A s s' [_ _ (delta & O & _ & N)]. exists delta; split; auto.
+  intros a. destruct (N a) as [(Hn & Hs)|(Hn & HA & (c & Hc & Hact) & Hg)].
+  - rewrite Hn. repeat split; auto; try discriminate.
+    intros ((c & Hc & Hact) & Hg). exfalso. unfold ast in Hs. rewrite Hc, Hg in Hs. simpl in Hs.
+    inversion Hs as [Hs']. rewrite <- Hs' in Hact. discriminate.
+  - rewrite Hn. repeat split; auto; try discriminate; eauto.
+Qed.
+
+Lemma stop_actions_decr : forall l s s', stop_actions l s = Ok s' ->
+  forall a c, In a l -> geta s a = Some c -> active (a_status c) = true ->
+  exists c', geta s' a = Some c' /\ (a_count c' < a_count c)%Z.
+Proof.
+  induction l as [|a0 l IH]; simpl; intros s s' H a c Hin Hc Hact; [tauto|].
+  bind_inv H.
+  assert (S0 : Srel anyR anyA s s0) by (eapply srel_stop_action; eauto; exact I).
+  assert (S1 : Srel anyR anyA s0 s') by (eapply stop_actions_srel; eauto; intros; exact I).
+  destruct (srel_acts_fwd _ _ _ _ _ _ S0 Hc) as (c0 & Hc0 & Hr0).
+  destruct (srel_acts_fwd _ _ _ _ _ _ S1 Hc0) as (c' & Hc' & Hr1).
+  pose proof (arel_count_le _ _ _ _ Hr1) as Hle.
+  destruct Hr0 as [->|(_ & _ & Hlt & _)]; [|exists c'; split; auto; lia].
+  destruct Hin as [<-|Hin]; [|eapply IH; eauto].
+  exists c'; split; auto.
+  unfold stop_action in Hb. rewrite Hc, Hact in Hb.
+  destruct (a_count c - 1 =? 0)%Z; inversion Hb; subst.
+  - rewrite geta_emit1, (geta_seta_same _ _ _ _ Hc) in Hc0.
+    apply (f_equal (option_map a_count)) in Hc0. simpl in Hc0. inversion Hc0. lia.
+  - rewrite (geta_seta_same _ _ _ _ Hc) in Hc0.
+    apply (f_equal (option_map a_count)) in Hc0. simpl in Hc0. inversion Hc0. lia.
+Qed.
+
+Section Pass3.
+  Variable rk : uid -> nat.
+  Variable ab : st -> uid -> bool -> res st.
+  Hypothesis Hab1 : forall (R A : uid -> Prop) s c d s',
+    ranked rk s -> closed R s -> owns R A s -> R c -> ab s c d = Ok s' -> Srel R A s s'.
+
+  (* the deactivate prologue leaves status / children / actions of f itself alone *)
+  Lemma deactivate_self : forall s f d s1 b i,
+    ranked rk s -> deactivate ab s f d = Ok (s1, b) -> getf s f = Some i ->
+    exists i1, getf s1 f = Some i1 /\ i_status i1 = i_status i /\ i_actions i1 = i_actions i /\
+               i_flow i1 = i_flow i /\ i_parent i1 = i_parent i /\ i_nis i1 = i_nis i /\
+               (b = true -> (i_activated i1 = i_activated i \/ i_activated i1 = 0%Z)) /\
+               (d = false -> s1 = s) /\
+               (d = true -> is_ref_activated s i = Ok true -> b = true -> i_activated i1 = 0%Z).
+  Proof.
+    unfold deactivate; intros s f d s1 b i Hr H E. rewrite E in H.
+    apply bind_ok in H. destruct H as (isref & Hisref & H).
+    destruct isref.
+    2:{ inversion H; subst. exists i; repeat split; auto.
+        intros Hd Hx _. subst d. rewrite Hx in Hisref. discriminate. }
+    destruct d; [|discriminate].
+    assert (Hpos : (0 < i_activated i)%Z).
+    { unfold is_ref_activated in Hisref.
+      destruct (0 <? i_activated i)%Z eqn:Ez; [apply Z.ltb_lt in Ez; auto|discriminate]. }
+    set (sm := modf s f (set_activated (i_activated i - 1)%Z)) in *.
+    assert (Em : getf sm f = Some (set_activated (i_activated i - 1)%Z i)).
+    { unfold sm. rewrite (modf_some _ _ _ _ E). eapply getf_setf_same; eauto. }
+    assert (Sm : Srel anyR anyA s sm).
+    { unfold sm. rewrite (modf_some _ _ _ _ E). apply srel_set_activated; unfold anyR; auto. }
+    destruct (i_activated i - 1 =? 0)%Z eqn:Ez.
+    - bind_inv H. inversion H; subst.
+      assert (S : Srel (below rk f) anyA sm s1).
+      { eapply (abort_same_srel rk ab Hab1 (below rk f) anyA (i_flow i) (i_children i));
+          eauto using below_closed, anyA_owns, srel_ranked.
+        apply Forall_forall. intros c Hin. eapply Hr; eauto. }
+      destruct (srel_fwd _ _ _ _ _ _ S Em) as (i1 & E1 & Hrel).
+      exists i1. destruct Hrel as (F1 & P1 & A1 & _ & _ & _ & _ & _ & N1).
+      destruct N1 as (Ha & Hn & Hs); [unfold below; lia|]. simpl in *.
+      apply Z.eqb_eq in Ez.
+      repeat match goal with |- _ /\ _ => split end; auto; try discriminate; intros; try lia;
+        try (right; lia).
+    - inversion H; subst. eexists; split; [exact Em|]. simpl. repeat split; auto; discriminate.
+  Qed.
+
+  Lemma prologue_inv : forall skip s f d s3 i,
+    ranked rk s -> prologue ab skip s f d = Ok (s3, true) -> getf s f = Some i ->
+    exists s1 s0 i1 i2,
+      deactivate ab s f d = Ok (s1, true) /\ getf s1 f = Some i1 /\ skip (i_status i1) = false /\
+      abort_children ab (i_children i1) s1 = Ok s0 /\ getf s0 f = Some i2 /\
+      stop_actions (i_actions i2) s0 = Ok s3 /\
+      i_actions i2 = i_actions i /\ i_status i2 = i_status i /\ i_nis i2 = i_nis i /\
+      i_flow i2 = i_flow i /\ i_parent i2 = i_parent i /\
+      (i_activated i2 = i_activated i \/ i_activated i2 = 0%Z) /\
+      Srel (below rk f) anyA s1 s0 /\ (d = false -> s1 = s) /\ i_activated i2 = i_activated i1.
+  Proof.
+    unfold prologue; intros skip s f d s3 i Hr H E.
+    apply bind_ok in H. destruct H as ([s1 b] & Hd & H). simpl in H.
+    destruct b; [|discriminate].
+    destruct (deactivate_self _ _ _ _ _ _ Hr Hd E) as (i1 & E1 & Hs1 & Ha1 & Hf1 & Hp1 & Hn1 & Hact1 & Hd1 & _).
+    rewrite E1 in H.
+    destruct (skip (i_status i1)) eqn:Esk; [discriminate|].
+    bind_inv H.
+    assert (Hr1 : ranked rk s1).
+    { eapply srel_ranked; [|exact Hr].
+      eapply (deactivate_srel rk ab Hab1 anyR anyA); eauto using anyR_closed, anyA_owns. exact I. }
+    assert (Hl : Forall (below rk f) (i_children i1)).
+    { apply Forall_forall. intros c Hin. eapply Hr1; eauto. }
+    assert (S : Srel (below rk f) anyA s1 s0).
+    { eapply (abort_children_srel rk ab Hab1 (below rk f) anyA (i_children i1)); eauto using below_closed, anyA_owns. }
+    destruct (abort_children_self rk ab Hab1 _ _ _ f i1 Hr1 Hl Hb E1) as (i2 & E2 & Hs2 & Hact2 & Hn2 & Hf2 & Hp2 & Ha2 & _).
+    rewrite E2 in H. bind_inv H. inversion H; subst.
+    assert (Hact' : i_activated i2 = i_activated i \/ i_activated i2 = 0%Z).
+    { destruct (Hact1 eq_refl) as [Hx|Hx]; [left|right]; congruence. }
+    exists s1, s0, i1, i2.
+    repeat match goal with |- _ /\ _ => split end; auto; congruence.
+  Qed.
+End Pass3.
+
+(* every unfinished action of an instance that ends gives up one share (or is stopped) *)
+Theorem abort_own_actions : forall rk n s f d s' i,
+  ranked rk s -> abort n s f d = Ok s' -> proceeds s f d = true -> getf s f = Some i ->
+  live (i_status i) = true ->
+  forall a c, In a (i_actions i) -> geta s a = Some c -> active (a_status c) = true ->
+  exists c', geta s' a = Some c' /\ (a_count c' < a_count c)%Z.
+Proof.
+  destruct n as [|n]; simpl; intros s f d s' i Hr H Hp E Hl a c Hin Hc Hact; try discriminate.
+  apply bind_ok in H. destruct H as ([s3 go] & Hpr & H). simpl in H.
+  destruct (prologue_seg rk (abort n) (abort_srel rk n) (abort_good rk n) (act0 s) _ _ _ _ _ _ Hr (act0_zinv s) Hpr)
+    as (G & _ & Hstop).
+  destruct go.
+  2:{ exfalso. destruct (Hstop eq_refl Hp) as (i3 & E3 & Hsk).
+      (* f was live, the prologue does not touch f's status: skip cannot hold *)
+      unfold prologue in Hpr. apply bind_ok in Hpr. destruct Hpr as ([s1 b] & Hd & Hpr). simpl in Hpr.
+      destruct (deactivate_self rk (abort n) (abort_srel rk n) _ _ _ _ _ _ Hr Hd E) as (i1 & E1 & Hs1 & _).
+      destruct b.
+      - rewrite E1 in Hpr. destruct (skip_abort (i_status i1)) eqn:Esk.
+        + rewrite Hs1 in Esk. unfold skip_abort, live in *.
+          destruct (listening (i_status i)), (is_stopping (i_status i)); simpl in *; discriminate.
+        + bind_inv Hpr. destruct (getf s0 f); try discriminate. bind_inv Hpr. discriminate.
+      - destruct (deactivate_seg rk (abort n) (abort_good rk n) (act0 s) _ _ _ _ _ Hr (act0_zinv s) Hd) as (_ & Hb).
+        specialize (Hb Hp). discriminate. }
+  destruct (prologue_inv rk (abort n) (abort_srel rk n) _ _ _ _ _ _ Hr Hpr E)
+    as (s1 & s0 & i1 & i2 & Hd & E1 & Hsk & Hch & E2 & Hsa & Ha2 & _).
+  assert (S10 : SrelT s s0).
+  { eapply Srel_trans.
+    - eapply (deactivate_srel rk (abort n) (abort_srel rk n) anyR anyA); eauto using anyR_closed, anyA_owns. exact I.
+    - assert (S1 : SrelT s s1).
+      { eapply (deactivate_srel rk (abort n) (abort_srel rk n) anyR anyA); eauto using anyR_closed, anyA_owns. exact I. }
+      eapply (abort_children_srel rk (abort n) (abort_srel rk n) anyR anyA (i_children i1));
+        eauto using anyR_closed, anyA_owns, srel_ranked.
+      apply Forall_forall; intros; exact I. }
+  destruct (srel_acts_fwd _ _ _ _ _ _ S10 Hc) as (c0 & Hc0 & Hr0).
+  assert (S3 : SrelT s0 s3) by (eapply stop_actions_srel; eauto; intros; exact I).
+  assert (S4 : SrelT s3 s').
+  { destruct (prologue_seg rk (abort n) (abort_srel rk n) (abort_good rk n) (act0 s) _ _ _ _ _ _ Hr (act0_zinv s) Hpr)
+      as (_ & Hgo & _). destruct (Hgo eq_refl) as (i3 & E3 & Hsk3 & _).
+    eapply epilogue_abort_srel; eauto using skip_abort_live. exact I. }
+  destruct Hr0 as [->|(_ & _ & Hlt & _)].
+  - rewrite Ha2 in Hsa.
+    destruct (stop_actions_decr _ _ _ Hsa a c Hin Hc0 Hact) as (c3 & Hc3 & Hlt3).
+    destruct (srel_acts_fwd _ _ _ _ _ _ S4 Hc3) as (c' & Hc' & Hr').
+    exists c'; split; auto. pose proof (arel_count_le _ _ _ _ Hr'). lia.
+  - destruct (srel_acts_fwd _ _ _ _ _ _ S3 Hc0) as (c3 & Hc3 & Hr3).
+    destruct (srel_acts_fwd _ _ _ _ _ _ S4 Hc3) as (c' & Hc' & Hr').
+    exists c'; split; auto.
+    pose proof (arel_count_le _ _ _ _ Hr3). pose proof (arel_count_le _ _ _ _ Hr'). lia.
+Qed.
+
+(* ------------------------------------------------------------------------------------ *)
+(* Restart of activated flows *)
+
+Definition restart_src (s : st) (i : inst) (f : uid) : uid :=
+  match i_parent i with
+  | None => f
+  | Some p => match getf s p with
+              | Some pi => if N.eqb (i_flow pi) (i_flow i) then p else f
+              | None => f
+              end
+  end.
+
+Definition restart_events (s : st) (i : inst) (f : uid) : list emit :=
+  if (0 <? i_activated i)%Z && negb (i_nis i)
+  then [ERestart f (restart_src s i f) (i_activated i)] else [].
+
+Lemma unlink_out : forall s f s', unlink s f = Ok s' -> out s' = out s.
+Proof.
+  unfold unlink; intros s f s' H. destruct (getf s f) as [i|]; try discriminate.
+  destruct (i_activated i =? 0)%Z; [|inversion H; auto].
+  destruct (i_parent i) as [p|]; [|inversion H; auto].
+  destruct (getf s p) as [pi|]; [|inversion H; auto].
+  destruct (remove1 f (i_children pi)); inversion H; auto.
+Qed.
+
+Lemma modf_out : forall s x g, out (modf s x g) = out s.
+Proof. unfold modf; intros; destruct (getf s x); auto. Qed.
+
+Lemma restart_out : forall s f d s' i, restart s f d = Ok s' -> getf s f = Some i ->
+  out s' = out s ++ (if d then [] else restart_events s i f) /\
+  (d = false -> (0 < i_activated i)%Z -> i_nis i = false ->
+     exists i', getf s' f = Some i' /\ i_nis i' = true).
+Proof.
+  unfold restart, restart_events, restart_src; intros s f d s' i H E. rewrite E in H.
+  destruct d; simpl in *.
+  - inversion H; subst. rewrite app_nil_r. split; auto; discriminate.
+  - destruct ((0 <? i_activated i)%Z && negb (i_nis i)) eqn:Ec.
+    + apply bind_ok in H. destruct H as (src & Hsrc & H). inversion H; subst.
+      rewrite modf_out, out_emit1. split.
+      * f_equal. f_equal. f_equal.
+        destruct (i_parent i) as [p|]; [|inversion Hsrc; auto].
+        destruct (getf s p) as [pi|]; [|discriminate]. inversion Hsrc; auto.
+      * intros _ _ _. unfold modf. rewrite getf_emit1, E.
+        eexists; split; [eapply getf_setf_same; rewrite getf_emit1; eauto|auto].
+    + inversion H; subst. rewrite app_nil_r. split; auto.
+      intros _ Hp Hn. apply Z.ltb_lt in Hp. rewrite Hp, Hn in Ec. discriminate.
+Qed.
+
+Lemma unlink_getf_fields : forall s f s' x i, unlink s f = Ok s' -> getf s x = Some i ->
+  exists i', getf s' x = Some i' /\ i_flow i' = i_flow i /\ i_activated i' = i_activated i /\
+             i_nis i' = i_nis i /\ i_parent i' = i_parent i /\ i_status i' = i_status i.
+Proof.
+  unfold unlink; intros s f s' x i H E.
+  destruct (getf s f) as [fi|]; try discriminate.
+  destruct (i_activated fi =? 0)%Z; [|inversion H; subst; eauto 10].
+  destruct (i_parent fi) as [p|]; [|inversion H; subst; eauto 10].
+  destruct (getf s p) as [pi|] eqn:Ep; [|inversion H; subst; eauto 10].
+  destruct (remove1 f (i_children pi)) as [l|]; inversion H; subst.
+  destruct (N.eq_dec p x) as [->|Hne].
+  - rewrite (getf_setf_same _ _ _ _ Ep). rewrite E in Ep; inversion Ep; subst. eexists; split; eauto 10.
+  - rewrite getf_setf_other; eauto 10.
+Qed.
+
+(* what an ending instance emits last: its FlowFailed, then - unless it is being deactivated -
+   the restart if it is activated and has not yet started its next instance; nothing before
+   that mentions f itself *)
+Theorem abort_emits : forall rk n s f d s' i,
+  ranked rk s -> abort n s f d = Ok s' -> proceeds s f d = true -> getf s f = Some i ->
+  live (i_status i) = true ->
+  exists pre, out s' = out s ++ pre ++ EFailed f :: (if d then [] else restart_events s i f) /\
+              Forall (emit_ok (below rk f) anyA) pre.
+Proof.
+  destruct n as [|n]; simpl; intros s f d s' i Hr H Hp E Hl; try discriminate.
+  apply bind_ok in H. destruct H as ([s3 go] & Hpr & H). simpl in H.
+  assert (Hgo : go = true).
+  { destruct go; auto. exfalso.
+    destruct (prologue_seg rk (abort n) (abort_srel rk n) (abort_good rk n) (act0 s) _ _ _ _ _ _ Hr (act0_zinv s) Hpr)
+      as (_ & _ & Hstop).
+    destruct (Hstop eq_refl Hp) as (i3 & E3 & Hsk).
+    unfold prologue in Hpr. apply bind_ok in Hpr. destruct Hpr as ([s1 b] & Hd & Hpr). simpl in Hpr.
+    destruct (deactivate_self rk (abort n) (abort_srel rk n) _ _ _ _ _ _ Hr Hd E) as (i1 & E1 & Hs1 & _).
+    destruct b.
+    - rewrite E1 in Hpr. destruct (skip_abort (i_status i1)) eqn:Esk.
+      + rewrite Hs1 in Esk. unfold skip_abort, live in *.
+        destruct (listening (i_status i)), (is_stopping (i_status i)); simpl in *; discriminate.
+      + bind_inv Hpr. destruct (getf s0 f); try discriminate. bind_inv Hpr. discriminate.
+    - destruct (deactivate_seg rk (abort n) (abort_good rk n) (act0 s) _ _ _ _ _ Hr (act0_zinv s) Hd) as (_ & Hb).
+      specialize (Hb Hp). discriminate. }
+  subst go.
+  destruct (prologue_inv rk (abort n) (abort_srel rk n) _ _ _ _ _ _ Hr Hpr E)
+    as (s1 & s0 & i1 & i2 & Hd & E1 & Hsk & Hch & E2 & Hsa & Ha2 & Hs2 & Hn2 & Hf2 & Hp2 & _ & S10 & Hds & Hact21).
+  (* output up to s3 *)
+  assert (Hr1 : ranked rk s1).
+  { eapply srel_ranked; [|exact Hr].
+    eapply (deactivate_srel rk (abort n) (abort_srel rk n) anyR anyA); eauto using anyR_closed, anyA_owns. exact I. }
+  assert (Sd : Srel (below rk f) anyA (modf s f (fun x => x)) s1 \/ True) by (right; exact I). clear Sd.
+  (* deactivate: either s1 = s or a decrement of f followed by aborts below f *)
+  assert (Od : exists p1, out s1 = out s ++ p1 /\ Forall (emit_ok (below rk f) anyA) p1).
+  { unfold deactivate in Hd. rewrite E in Hd.
+    apply bind_ok in Hd. destruct Hd as (isref & Hisref & Hd).
+    destruct isref; [|inversion Hd; subst; exists []; rewrite app_nil_r; auto].
+    destruct (i_activated i - 1 =? 0)%Z; [|discriminate].
+    bind_inv Hd. inversion Hd; subst s2.
+    assert (Sx : Srel (below rk f) anyA (modf s f (set_activated (i_activated i - 1)%Z)) s1).
+    { eapply (abort_same_srel rk (abort n) (abort_srel rk n) (below rk f) anyA (i_flow i) (i_children i));
+        eauto using below_closed, anyA_owns.
+      - eapply srel_ranked; [|exact Hr]. rewrite (modf_some _ _ _ _ E).
+        apply (srel_set_activated anyR anyA); unfold anyR; auto. right; split; auto.
+        destruct d; [|discriminate]. unfold is_ref_activated in Hisref.
+        destruct (0 <? i_activated i)%Z eqn:Ez; [apply Z.ltb_lt in Ez; auto|discriminate].
+      - apply below_closed. eapply srel_ranked; [|exact Hr]. rewrite (modf_some _ _ _ _ E).
+        apply (srel_set_activated anyR anyA); unfold anyR; auto. right; split; auto.
+        destruct d; [|discriminate]. unfold is_ref_activated in Hisref.
+        destruct (0 <? i_activated i)%Z eqn:Ez; [apply Z.ltb_lt in Ez; auto|discriminate].
+      - apply Forall_forall. intros c Hin. eapply Hr; eauto. }
+    destruct Sx as [_ _ (p1 & O1 & F1 & _)]. rewrite modf_out in O1. eauto. }
+  destruct Od as (p1 & O1 & F1).
+  destruct S10 as [_ _ (p2 & O2 & F2 & _)].
+  assert (S3 : Srel (below rk f) (fun _ => True) s0 s3).
+  { eapply stop_actions_srel; eauto. }
+  destruct S3 as [_ _ (p3 & O3 & F3 & _)].
+  (* the epilogue *)
+  assert (E3 : getf s3 f = Some i2).
+  { unfold getf. rewrite (stop_actions_flows _ _ _ Hsa). exact E2. }
+  unfold epilogue_abort in H. bind_inv H.
+  destruct (unlink_getf_fields _ _ _ _ _ Hb E3) as (i4 & E4 & Hf4 & Ha4 & Hn4 & Hp4 & Hs4).
+  assert (E5 : getf (emit1 (modf s2 f (set_status FStopped)) (EFailed f)) f = Some (set_status FStopped i4)).
+  { rewrite getf_emit1, (modf_some _ _ _ _ E4). eapply getf_setf_same; eauto. }
+  destruct (restart_out _ _ _ _ _ H E5) as (O5 & _).
+  exists (p1 ++ p2 ++ p3). split.
+  - rewrite O5, out_emit1, modf_out, (unlink_out _ _ _ Hb), O3, O2, O1.
+    repeat rewrite <- app_assoc. simpl. do 4 f_equal.
+    destruct d; auto.
+    (* d = false: s1 = s, so activated / nis / parent / flow ids are those of s *)
+    specialize (Hds eq_refl). subst s1. rewrite E in E1; inversion E1; subst i1.
+    unfold restart_events, restart_src; simpl.
+    rewrite Ha4, Hn4, Hp4, Hf4, Hact21, Hn2, Hp2, Hf2.
+    destruct ((0 <? i_activated i)%Z && negb (i_nis i)); auto.
+    f_equal. f_equal.
+    destruct (i_parent i) as [p|]; auto.
+    rewrite getf_emit1.
+    (* flow id of the parent is the same in s and in the state before the restart *)
+    assert (Hpf : forall pi, getf s p = Some pi ->
+              exists pi', getf (modf s2 f (set_status FStopped)) p = Some pi' /\ i_flow pi' = i_flow pi).
+    { intros pi Ep.
+      assert (S03 : SrelT s s3).
+      { eapply Srel_trans; [|eapply Srel_trans].
+        - eapply (abort_children_srel rk (abort n) (abort_srel rk n) anyR anyA (i_children i));
+            eauto using anyR_closed, anyA_owns. apply Forall_forall; intros; exact I.
+        - eapply stop_actions_srel; eauto; intros; exact I.
+        - apply Srel_refl. }
+      destruct (srel_fwd _ _ _ _ _ _ S03 Ep) as (pi3 & Ep3 & Hrel3).
+      destruct (unlink_getf_fields _ _ _ _ _ Hb Ep3) as (pi4 & Ep4 & Hpf4 & _).
+      destruct Hrel3 as (Hpf3 & _).
+      unfold modf. rewrite E4.
+      destruct (N.eq_dec f p) as [<-|Hne].
+      - rewrite (getf_setf_same _ _ _ _ E4). rewrite E4 in Ep4; inversion Ep4; subst.
+        eexists; split; eauto. simpl. congruence.
+      - rewrite getf_setf_other; auto. eexists; split; eauto. congruence. }
+    destruct (getf s p) as [pi|] eqn:Ep.
+    + destruct (Hpf pi eq_refl) as (pi' & Ep' & Hfl). rewrite Ep', Hfl. auto.
+    + assert (S03 : SrelT s s3).
+      { eapply Srel_trans; [|eapply Srel_trans].
+        - eapply (abort_children_srel rk (abort n) (abort_srel rk n) anyR anyA (i_children i));
+            eauto using anyR_closed, anyA_owns. apply Forall_forall; intros; exact I.
+        - eapply stop_actions_srel; eauto; intros; exact I.
+        - apply Srel_refl. }
+      pose proof (srel_none _ _ _ _ _ S03 Ep) as Ep3.
+      assert (Ep4 : getf s2 p = None).
+      { unfold unlink in Hb. rewrite E3 in Hb.
+        destruct (i_activated i2 =? 0)%Z; [|inversion Hb; subst; auto].
+        destruct (i_parent i2) as [q|]; [|inversion Hb; subst; auto].
+        destruct (getf s3 q) as [qi|] eqn:Eq; [|inversion Hb; subst; auto].
+        destruct (remove1 f (i_children qi)); inversion Hb; subst.
+        apply getf_setf_none; auto. }
+      unfold modf. rewrite E4.
+      rewrite getf_setf_none; auto.
+  - repeat (apply Forall_app; split); auto.
+Qed.
+
+(* output and own fields after the common prologue (ranked: the loops work strictly below f) *)
+Lemma prologue_out : forall rk n skip s f d s3 i,
+  ranked rk s -> prologue (abort n) skip s f d = Ok (s3, true) -> getf s f = Some i ->
+  exists pre i3,
+    out s3 = out s ++ pre /\ Forall (emit_ok (below rk f) anyA) pre /\
+    getf s3 f = Some i3 /\ skip (i_status i3) = false /\ i_status i3 = i_status i /\
+    i_flow i3 = i_flow i /\ i_parent i3 = i_parent i /\ i_nis i3 = i_nis i /\
+    (d = false -> i_activated i3 = i_activated i) /\ SrelT s s3.
+Proof.
+  intros rk n skip s f d s3 i Hr Hpr E.
+  destruct (prologue_inv rk (abort n) (abort_srel rk n) _ _ _ _ _ _ Hr Hpr E)
+    as (s1 & s0 & i1 & i2 & Hd & E1 & Hsk & Hch & E2 & Hsa & Ha2 & Hs2 & Hn2 & Hf2 & Hp2 & _ & S10 & Hds & Hact21).
+  assert (Sd : SrelT s s1).
+  { eapply (deactivate_srel rk (abort n) (abort_srel rk n) anyR anyA); eauto using anyR_closed, anyA_owns. exact I. }
+  assert (Hr1 : ranked rk s1) by (eapply srel_ranked; eauto).
+  assert (Od : exists p1, out s1 = out s ++ p1 /\ Forall (emit_ok (below rk f) anyA) p1).
+  { unfold deactivate in Hd. rewrite E in Hd.
+    apply bind_ok in Hd. destruct Hd as (isref & Hisref & Hd).
+    destruct isref; [|inversion Hd; subst; exists []; rewrite app_nil_r; auto].
+    destruct (i_activated i - 1 =? 0)%Z; [|discriminate].
+    bind_inv Hd. inversion Hd; subst s2.
+    assert (Hpos : (0 < i_activated i)%Z).
+    { destruct d; [|discriminate]. unfold is_ref_activated in Hisref.
+      destruct (0 <? i_activated i)%Z eqn:Ez; [apply Z.ltb_lt in Ez; auto|discriminate]. }
+    assert (Hrm : ranked rk (modf s f (set_activated (i_activated i - 1)%Z))).
+    { eapply srel_ranked; [|exact Hr]. rewrite (modf_some _ _ _ _ E).
+      apply (srel_set_activated anyR anyA); unfold anyR; auto. }
+    assert (Sx : Srel (below rk f) anyA (modf s f (set_activated (i_activated i - 1)%Z)) s1).
+    { eapply (abort_same_srel rk (abort n) (abort_srel rk n) (below rk f) anyA (i_flow i) (i_children i));
+        eauto using below_closed, anyA_owns.
+      apply Forall_forall. intros c Hin. eapply Hr; eauto. }
+    destruct Sx as [_ _ (p1 & O1 & F1 & _)]. rewrite modf_out in O1. eauto. }
+  destruct Od as (p1 & O1 & F1).
+  assert (S10' : SrelT s1 s0).
+  { eapply (abort_children_srel rk (abort n) (abort_srel rk n) anyR anyA (i_children i1));
+      eauto using anyR_closed, anyA_owns. apply Forall_forall; intros; exact I. }
+  destruct S10 as [_ _ (p2 & O2 & F2 & _)].
+  assert (S3 : Srel (below rk f) anyA s0 s3) by (eapply stop_actions_srel; eauto; intros; exact I).
+  assert (S3' : SrelT s0 s3) by (eapply stop_actions_srel; eauto; intros; exact I).
+  destruct S3 as [_ _ (p3 & O3 & F3 & _)].
+  exists (p1 ++ p2 ++ p3), i2.
+  repeat match goal with |- _ /\ _ => split end; auto.
+  - rewrite O3, O2, O1. repeat rewrite <- app_assoc. auto.
+  - repeat (apply Forall_app; split); auto.
+  - unfold getf. rewrite (stop_actions_flows _ _ _ Hsa). exact E2.
+  - destruct (deactivate_self rk (abort n) (abort_srel rk n) _ _ _ _ _ _ Hr Hd E) as (i1' & E1' & Hs1 & _).
+    rewrite E1 in E1'; inversion E1'; subst i1'. rewrite Hs2, <- Hs1. exact Hsk.
+  - intros Hd0. specialize (Hds Hd0). subst s1. rewrite E in E1; inversion E1; subst i1. auto.
+  - eapply Srel_trans; [exact Sd|eapply Srel_trans; eauto].
+Qed.
+
+Lemma parent_flow_stable : forall s s3 p pi, SrelT s s3 -> getf s p = Some pi ->
+  exists pi3, getf s3 p = Some pi3 /\ i_flow pi3 = i_flow pi.
+Proof.
+  intros s s3 p pi S E. destruct (srel_fwd _ _ _ _ _ _ S E) as (pi3 & E3 & (Hf & _)). eauto.
+Qed.
+
+(* _finish_flow of a running non-main instance: FlowFinished, then the restart *)
+Theorem finish_emits : forall rk n s f d s' i,
+  ranked rk s -> finish n s f d = Ok s' -> proceeds s f d = true -> getf s f = Some i ->
+  listening (i_status i) = true -> i_flow i <> main_id ->
+  exists pre, out s' = out s ++ pre ++ EFinished f :: (if d then [] else restart_events s i f) /\
+              Forall (emit_ok (below rk f) anyA) pre.
+Proof.
+  unfold finish; intros rk n s f d s' i Hr H Hp E Hl Hmain.
+  apply bind_ok in H. destruct H as ([s3 go] & Hpr & H). simpl in H.
+  assert (Hgo : go = true).
+  { destruct go; auto. exfalso.
+    destruct (prologue_seg rk (abort n) (abort_srel rk n) (abort_good rk n) (act0 s) _ _ _ _ _ _ Hr (act0_zinv s) Hpr)
+      as (_ & _ & Hstop).
+    destruct (Hstop eq_refl Hp) as (i3 & E3 & Hsk).
+    unfold prologue in Hpr. apply bind_ok in Hpr. destruct Hpr as ([s1 b] & Hd & Hpr). simpl in Hpr.
+    destruct (deactivate_self rk (abort n) (abort_srel rk n) _ _ _ _ _ _ Hr Hd E) as (i1 & E1 & Hs1 & _).
+    destruct b.
+    - rewrite E1 in Hpr. destruct (skip_finish (i_status i1)) eqn:Esk.
+      + rewrite Hs1 in Esk. unfold skip_finish in *. rewrite Hl in Esk. discriminate.
+      + bind_inv Hpr. destruct (getf s0 f); try discriminate. bind_inv Hpr. discriminate.
+    - destruct (deactivate_seg rk (abort n) (abort_good rk n) (act0 s) _ _ _ _ _ Hr (act0_zinv s) Hd) as (_ & Hb).
+      specialize (Hb Hp). discriminate. }
+  subst go.
+  destruct (prologue_out rk n _ _ _ _ _ _ Hr Hpr E)
+    as (pre & i3 & O3 & F3 & E3 & Hsk & Hs3 & Hf3 & Hp3 & Hn3 & Ha3 & S03).
+  unfold epilogue_finish in H. rewrite E3 in H.
+  destruct (N.eqb (i_flow i3) main_id) eqn:Em.
+  { apply N.eqb_eq in Em. congruence. }
+  bind_inv H.
+  assert (E4 : getf (modf s3 f (set_status FFinished)) f = Some (set_status FFinished i3)).
+  { rewrite (modf_some _ _ _ _ E3). eapply getf_setf_same; eauto. }
+  destruct (unlink_getf_fields _ _ _ _ _ Hb E4) as (i5 & E5 & Hf5 & Ha5 & Hn5 & Hp5 & Hs5).
+  assert (E6 : getf (emit1 s0 (EFinished f)) f = Some i5) by (rewrite getf_emit1; auto).
+  destruct (restart_out _ _ _ _ _ H E6) as (O6 & _).
+  exists pre. split; auto.
+  rewrite O6, out_emit1, (unlink_out _ _ _ Hb), modf_out, O3.
+  repeat rewrite <- app_assoc. simpl. do 3 f_equal.
+  destruct d; auto.
+  unfold restart_events, restart_src; simpl in *.
+  rewrite Ha5, Hn5, Hp5, Hf5, (Ha3 eq_refl), Hn3, Hp3, Hf3.
+  destruct ((0 <? i_activated i)%Z && negb (i_nis i)); auto.
+  f_equal. f_equal.
+  destruct (i_parent i) as [p|]; auto.
+  rewrite getf_emit1.
+  destruct (getf s p) as [pi|] eqn:Ep.
+  - destruct (parent_flow_stable _ _ _ _ S03 Ep) as (pi3 & Ep3 & Hpf3).
+    assert (Ep4 : exists pi4, getf (modf s3 f (set_status FFinished)) p = Some pi4 /\ i_flow pi4 = i_flow pi3).
+    { unfold modf. rewrite E3. destruct (N.eq_dec f p) as [<-|Hne].
+      - rewrite (getf_setf_same _ _ _ _ E3). rewrite E3 in Ep3; inversion Ep3; subst. eauto.
+      - rewrite getf_setf_other; eauto. }
+    destruct Ep4 as (pi4 & Ep4 & Hpf4).
+    destruct (unlink_getf_fields _ _ _ _ _ Hb Ep4) as (pi5 & Ep5 & Hpf5 & _).
+    rewrite Ep5. rewrite Hpf5, Hpf4, Hpf3. auto.
+  - pose proof (srel_none _ _ _ _ _ S03 Ep) as Ep3.
+    assert (Ep4 : getf (modf s3 f (set_status FFinished)) p = None).
+    { unfold modf. rewrite E3. apply getf_setf_none; auto. }
+    assert (Ep5 : getf s0 p = None).
+    { unfold unlink in Hb. rewrite E4 in Hb. simpl in Hb.
+      destruct (i_activated i3 =? 0)%Z; [|inversion Hb; subst; auto].
+      destruct (i_parent i3) as [q|]; [|inversion Hb; subst; auto].
+      destruct (getf (modf s3 f (set_status FFinished)) q) as [qi|] eqn:Eq; [|inversion Hb; subst; auto].
+      destruct (remove1 f (i_children qi)); inversion Hb; subst.
+      apply getf_setf_none; auto. }
+    rewrite Ep5. auto.
+Qed.
+
+(* the main flow restarts in place: WAITING again, nothing emitted for it *)
+Theorem finish_main : forall rk n s f d s' i,
+  ranked rk s -> finish n s f d = Ok s' -> proceeds s f d = true -> getf s f = Some i ->
+  listening (i_status i) = true -> i_flow i = main_id ->
+  (exists i', getf s' f = Some i' /\ i_status i' = FWaiting) /\
+  exists pre, out s' = out s ++ pre /\ Forall (emit_ok (below rk f) anyA) pre.
+Proof.
+  unfold finish; intros rk n s f d s' i Hr H Hp E Hl Hmain.
+  apply bind_ok in H. destruct H as ([s3 go] & Hpr & H). simpl in H.
+  assert (Hgo : go = true).
+  { destruct go; auto. exfalso.
+    destruct (prologue_seg rk (abort n) (abort_srel rk n) (abort_good rk n) (act0 s) _ _ _ _ _ _ Hr (act0_zinv s) Hpr)
+      as (_ & _ & Hstop).
+    destruct (Hstop eq_refl Hp) as (i3 & E3 & Hsk).
+    unfold prologue in Hpr. apply bind_ok in Hpr. destruct Hpr as ([s1 b] & Hd & Hpr). simpl in Hpr.
+    destruct (deactivate_self rk (abort n) (abort_srel rk n) _ _ _ _ _ _ Hr Hd E) as (i1 & E1 & Hs1 & _).
+    destruct b.
+    - rewrite E1 in Hpr. destruct (skip_finish (i_status i1)) eqn:Esk.
+      + rewrite Hs1 in Esk. unfold skip_finish in *. rewrite Hl in Esk. discriminate.
+      + bind_inv Hpr. destruct (getf s0 f); try discriminate. bind_inv Hpr. discriminate.
+    - destruct (deactivate_seg rk (abort n) (abort_good rk n) (act0 s) _ _ _ _ _ Hr (act0_zinv s) Hd) as (_ & Hb).
+      specialize (Hb Hp). discriminate. }
+  subst go.
+  destruct (prologue_out rk n _ _ _ _ _ _ Hr Hpr E)
+    as (pre & i3 & O3 & F3 & E3 & Hsk & Hs3 & Hf3 & Hp3 & Hn3 & Ha3 & S03).
+  unfold epilogue_finish in H. rewrite E3 in H. rewrite Hf3, Hmain, N.eqb_refl in H.
+  inversion H; subst. split.
+  - rewrite (modf_some _ _ _ _ E3). eexists; split; [eapply getf_setf_same; eauto|auto].
+  - exists pre. rewrite modf_out. auto.
+Qed.
